@@ -97,12 +97,12 @@ def run_rows(cid, source):
                 info = harness.describe_error(item)
                 events.append(["rejected", type(item).__name__, info.get("line"), info.get("cell")])
             else:
-                events.append(["accepted", list(item)])
+                events.append(["accepted", item])  # copied only after the iteration, as list(cutplace.rows(...)) would see it
     except m["errors"].CutplaceError as error:
         events.append(["RAISED", type(error).__name__, str(error)[:200]])
     except Exception as error:
         events.append(["FOREIGN", type(error).__name__, str(error)[:200]])
-    return events
+    return [["accepted", list(event[1])] if event[0] == "accepted" else event for event in events]
 
 
 def judge_table(case, part):
